@@ -156,6 +156,7 @@ PROPS["C05"] = {
     "legs": [
         {"test": "TestC05", "kind": "rapid",
          "quick": {"checks": 15000, "shards": 4, "shrink": "15s"}, "thorough": {"checks": 120000, "shards": 16}},
+        {"test": "TestC05NameKeyCollide", "kind": "rapid", "quick": {"checks": 6000, "shards": 1}, "thorough": {"checks": 80000, "shards": 4}},
     ],
     "min_nontrivial": {"quick": 300, "thorough": 5000},
 }
